@@ -94,9 +94,15 @@ CHECKS = {
     },
     "C10": {
         "level": "fault_enumeration",
-        "quick": {"shards": 16, "rounds": 1, "checks": 100, "timeout": 900},
-        "thorough": {"shards": 16, "rounds": 4, "checks": 500, "timeout": 3000},
-        "assumptions": [],
+        "quick": {"shards": 16, "rounds": 1, "checks": 2000, "timeout": 900},
+        "thorough": {"shards": 16, "rounds": 8, "checks": 2500, "timeout": 3000},
+        "exhaustive_subspace": "per generated log whose newest file is <= 3 KiB (thorough tier, 4 logs per process): every truncation offset and every byte position x {one bit flip, 0x00, 0xFF, +1}, judged at replay level (L1)",
+        "assumptions": [
+            "damage model: one fault (truncation or one replaced byte) on the newest log file of a cleanly written log; older files undamaged",
+            "the damaged log is written through pkg/wal, the database is then opened on it with engine.NewEngineFacade (memtable 32 MiB, so recovery does not flush)",
+            "replay is judged by the SET of entries it delivers (property: 'set of entries delivered by replay vs. entries appended'); order and duplicates are only counted",
+            "batch atomicity under a cut inside a batch is C03's statement, not judged here",
+        ],
     },
     "C11": {
         "level": "exploration",
@@ -156,13 +162,20 @@ CHECKS = {
     },
     "C19": {
         "level": "exploration",
-        "quick": {"shards": 16, "rounds": 1, "checks": 100, "timeout": 900},
-        "thorough": {"shards": 16, "rounds": 4, "checks": 500, "timeout": 3000},
-        "assumptions": [],
+        # open findings: TxGet with an out-of-limit key drops the handle without rollback (D14);
+        # Get/TxGet report every engine error as found=false
+        "env": {"VERIF_OFF": "reject_on_open_handle,engine_error_mapping"},
+        "quick": {"shards": 16, "rounds": 2, "checks": 300, "timeout": 900},
+        "thorough": {"shards": 16, "rounds": 12, "checks": 500, "timeout": 3000},
+        "assumptions": [
+            "one client issues one request at a time; requests that wait for the process-wide transaction lock by design are never issued (the lock state is probed with TryLock before every request)",
+            "the embedded answer is taken from a twin engine (same configuration, same operations through the embedded API); the background flush is quiesced on both engines after every write",
+            "requests whose message would exceed the transport's default 4 MiB cap (10 MiB values) are passed to the server methods directly, after a protobuf encode/decode round trip",
+            "scan requests that combine a range with a prefix/suffix have no documented meaning and are only checked for order, liveness, limit and the filters given",
+        ],
     },
     "C20": {
         "level": "exploration",
-        "env": {"VERIF_OFF": "nonfinite_ratio"},
         "quick": {"shards": 16, "rounds": 1, "checks": 600, "timeout": 900},
         "thorough": {"shards": 16, "rounds": 6, "checks": 1000, "timeout": 3000},
         "exhaustive_subspace": "all truncation lengths (every strict prefix 0..len-1, plus the full length) of each generated stored manifest, at config.LoadConfigFromManifest and (engine sub-check, all_trunc cases) at engine.NewEngineFacade",
